@@ -57,6 +57,10 @@ type Config struct {
 	// Reactor: give every honest node a real ConsensusReactor (bound to an unstarted p2p.Switch
 	// without peers) so that peer bytes can be fed through the real Receive.
 	Reactor bool
+	// ViaSwitch: every (re)start enters consensus the way a node with fast_sync enabled does once it
+	// has caught up: the reactor is started in fast-sync mode and ConsensusReactor.SwitchToConsensus
+	// is called with the node's state object (the one the ConsensusState was built on, as angine does).
+	ViaSwitch bool
 }
 
 type Flight struct {
@@ -307,16 +311,19 @@ func (n *Node) boot(st *sm.State) {
 	n.CS = cs
 	n.Ctl = pbft.VerifAttach(cs)
 	n.Alive = true
-	if n.net.Cfg.Reactor {
+	if n.net.Cfg.Reactor || n.net.Cfg.ViaSwitch {
 		pc := viper.New()
 		sw := p2p.NewSwitch(pc)
-		conR := pbft.NewConsensusReactor(cs, false)
+		conR := pbft.NewConsensusReactor(cs, n.net.Cfg.ViaSwitch)
 		conR.SetSwitch(sw)
 		conR.SetEventSwitch(n.Evsw)
 		cs.BindReactor(conR)
 		n.ConR = conR
 		if _, err := conR.Start(); err != nil { // starts the consensus state as production does
 			panic(fmt.Sprintf("sim: reactor start: %v", err))
+		}
+		if n.net.Cfg.ViaSwitch {
+			conR.SwitchToConsensus(st)
 		}
 	} else if _, err := cs.Start(); err != nil {
 		panic(fmt.Sprintf("sim: start: %v", err))
